@@ -91,7 +91,6 @@ class HashGlobalVarDesc:
             return
         with ebpf.save_registers([3]):
             with value.get_address(3, True, True):
-                ebpf.owners.add(3)  # r3 now holds the address of the value
                 with ebpf.save_registers([0, 1, 2, 4, 5]), \
                         ebpf.get_stack(4) as stack:
                     ebpf.r1 = ebpf.get_fd(ebpf.__dict__[self.name].fd)
